@@ -57,9 +57,10 @@ def decode_replay(res):
 
 def generate(ctx, tla, cfg, simulate=None, depth=None, timeout=3000, workers=4):
     """Run a generator spec; returns the list of behaviours (deduplicated for -simulate)."""
-    res = vlib.tlc(ctx, tla, cfg, workers=workers, timeout=timeout, simulate=simulate, depth=depth,
+    # -simulate: one worker, so the walk (RandomElement, seeded by -seed) is reproducible
+    res = vlib.tlc(ctx, tla, cfg, workers=1 if simulate else workers, timeout=timeout, simulate=simulate, depth=depth,
                    seed=(ctx.seed % 2000000000) if simulate else None)
-    if res.violated or res.error and not simulate:
+    if res.violated or "Error:" in res.out:
         raise vlib.ToolError("generator %s/%s failed:\n%s" % (tla, cfg, res.out[-3000:]))
     if not simulate and not res.completed:
         raise vlib.ToolError("generator %s/%s did not complete:\n%s" % (tla, cfg, res.out[-3000:]))
@@ -153,7 +154,7 @@ def run(ctx):
     inputs += generate(ctx, "Mutation.tla", "Mutation_d2small.cfg")
     if not q:
         inputs += generate(ctx, "Mutation.tla", "Mutation_d2mid.cfg")
-    nsim = 400 if q else 6000
+    nsim = 500 if q else 8000
     inputs += generate(ctx, "Mutation.tla", "Mutation_sim.cfg", simulate="num=%d" % nsim, depth=7)
     inputs += generate(ctx, "TokenSoup.tla", "TokenSoup_jq_sim.cfg", simulate="num=%d" % (nsim * 2), depth=10)
     inputs += generate(ctx, "TokenSoup.tla", "TokenSoup_yaml_sim.cfg", simulate="num=%d" % nsim, depth=13)
